@@ -58,6 +58,79 @@ theorem cfgNv_other (s : Scheme) (hs : s.blastFamily = false) (v0 : α) :
   | op :: ops => by
     cases op <;> simp [cfgNv, hs, cfgNv_other s hs v0 ops]
 
+theorem construct_ok {s : Scheme} {c : ChanArg α} {o : Obj α} (h : construct s c = .ok o) :
+    o.scheme = s ∧ o.nv = 0 ∧ storeChan s c = .ok o.chan := by
+  unfold construct at h
+  cases hc : storeChan s c with
+  | ok ch =>
+    rw [hc] at h
+    cases h
+    exact ⟨rfl, rfl, rfl⟩
+  | error e => rw [hc] at h; cases h
+
+theorem run_scheme (K : Kernels α) (o : Obj α) (ops : List (Op α)) : (run K o ops).scheme = o.scheme := by
+  rw [run_state]
+
+/-- a history and a freshly configured object give the same state -/
+theorem run_eq_fresh (K : Kernels α) (s : Scheme) (c0 cL : ChanArg α) (o0 f : Obj α)
+    (h0 : construct s c0 = .ok o0) (hf : construct s cL = .ok f) (ops : List (Op α))
+    (hc : f.chan = cfgChan s o0.chan ops) (vL : Option α)
+    (hv : s.blastFamily = true → setNoiseVar vL = .ok (cfgNv s o0.nv ops)) :
+    run K o0 ops = run K f [.setNoiseVar vL] := by
+  obtain ⟨hs0, hn0, _⟩ := construct_ok h0
+  obtain ⟨hsf, hnf, _⟩ := construct_ok hf
+  rw [run_state K ops o0, run_state K _ f, hs0, hsf, ← hc]
+  congr 1
+  cases hb : s.blastFamily with
+  | true =>
+    have := hv hb
+    simp only [cfgNv, hb, if_true, this]
+  | false =>
+    rw [cfgNv_other s hb, cfgNv_other s hb, hn0, hnf]
+
+theorem outOfExcept_mat {m n : Nat} {r : Except PyErr (Mat α m n)} {E : Mat α m n}
+    (h : outOfExcept r = .mat m n E) : r = .ok E := by
+  cases r with
+  | error e => cases h
+  | ok A =>
+    simp only [outOfExcept] at h
+    cases h
+    rfl
+
 end
+
+/-- after any history a Blast / MRC object whose configured noise variance is not positive
+    decodes the noise-free channel output of what it encodes back to the data -/
+theorem blast_obj_roundtrip {n : Nat} (K : Kernels ℂ) (o : Obj ℂ)
+    (hs : o.scheme = .blast ∨ o.scheme = .mrc)
+    (hr : FullColRank o.chan.H) (hp : IsPinv o.chan.H (K.pinv o.chan.H)) (hnv : ¬ 0 < o.nv.re)
+    (x : Vec ℂ n) (E : Mat ℂ o.chan.nt (n / o.chan.nt))
+    (hE : (step K o (.encode n x)).2 = .mat o.chan.nt (n / o.chan.nt) E) :
+    ∃ d : Vec ℂ (o.chan.nt * (n / o.chan.nt)),
+      (step K o (.decode o.chan.nr (n / o.chan.nt) (matMul o.chan.H E))).2 = .vec _ d ∧
+      ∀ (j : Nat) (hj : j < n) (hj' : j < o.chan.nt * (n / o.chan.nt)), d ⟨j, hj'⟩ = x ⟨j, hj⟩ := by
+  have hEnc : blastEncode o.chan.nt x = .ok E := by
+    apply outOfExcept_mat
+    rcases hs with h | h <;> simpa [step, encodeOf, h] using hE
+  refine ⟨blastDecode (blastFilterK K o.chan.H o.nv) (matMul o.chan.H E), ?_, ?_⟩
+  · rcases hs with h | h <;> simp [step, decodeOf, h]
+  · intro j hj hj'
+    have hp' : IsPinv o.chan.H (K.pinv o.chan.H) := hp
+    unfold blastFilterK
+    -- the filter is the ZF branch
+    obtain ⟨hNt, hm, hEm⟩ := blastEncode_ok hEnc
+    have h1 := hp.hgh
+    have hGH : toM (K.pinv o.chan.H) * toM o.chan.H = 1 := by
+      c04_matrix at h1
+      exact pinv_left_inv _ _ hr h1
+    have key : matMul (blastFilter o.nv (K.pinv o.chan.H)
+        (K.solve (mmseLhs o.chan.H o.nv) (mmseRhs o.chan.H))) (matMul o.chan.H E) = reshapeF o.chan.nt x hm := by
+      apply toM_inj
+      rw [toM_matMul, toM_matMul, toM_blastFilter_zf o.nv hnv, hEm]
+      exact scaled_roundtrip _ _ _ _ (sqrtNat_ne_zero hNt) hGH
+    unfold blastDecode
+    rw [key]
+    exact flattenF_reshapeF o.chan.nt x hm j hj hj'
+
 end Pf
 end PyPhysim.C04
